@@ -58,6 +58,14 @@ func (l *LinearRegressor) Init(n *onnx.NodeProto) error {
 		}
 	}
 
+	if l.coefficients == nil {
+		return ops.ErrInvalidAttribute("coefficients", l)
+	}
+
+	if l.targets <= 0 {
+		return ops.ErrInvalidAttribute("targets", l)
+	}
+
 	err := l.coefficients.Reshape(l.targets, ops.NElements(l.coefficients.Shape()...)/l.targets)
 	if err != nil {
 		return err
